@@ -53,6 +53,13 @@ CLAIMED["C16"] = {
   "technique": "machine-checked proof in Lean 4 (list/map lemmas over the modelled tokenizer and typed extraction) + model/implementation correspondence check + layout oracle",
 }
 
+CLAIMED["C17"] = {
+  "text": "Lean 4 theorems (Geodesy/Props/C17.lean) over the model of parse_proj / tidy_proj: text containing | or not containing 'proj' passes through unchanged (proj_passthrough), init clauses are refused wherever they stand in a step and nested pipelines are refused (init_refused, nested_refused), every round adds at most one step, at the end for a plain pipeline and at the front for an inverted one, so that step order is kept resp. reversed (round_adds_one, headStep_steps), k -> k_0 and a+rf -> ellps=a,rf incl. the k-before-a/rf order (k_to_k0, a_rf_to_ellps, k_before_a_rf), plus kernel-evaluated translations of the documented shapes (pipeline inv with omit_* exchange, globals before locals). The meaning clause for whole pipelines is decided by the correspondence run (translated text exact; instantiated tree and values) and a translation oracle on the implementation: Plain::op(PROJ text) against Plain::op(hand-written Geodesy counterpart) on random pipelines with +, step, inv, omit_*, globals, a/rf/k, comments, layout and shuffled item order, both directions, bitwise; idempotence of the translation.",
+  "design_ref": "DESIGN.md section 7, C17",
+  "note": "Partial: proj_pipeline_inv / globals_before_locals as general theorems are not proved (instances are kernel-evaluated); the equivalence with the Geodesy counterpart is validated by the oracle.",
+  "technique": "machine-checked proof in Lean 4 (structure of the modelled translation loop; kernel evaluation of instances) + model/implementation correspondence check + translation oracle",
+}
+
 ALL = ["C%02d" % i for i in range(1, 21)]
 
 def main():
